@@ -434,6 +434,21 @@ def gen_threads(rng, ctx, pop, idx):
                      "select a from b; update t set a = 1; select 3;",
                      "select 1;\n\n\nselect 2;   select 3\n;select 4"])
                 prog.append({'k': 'lazy', 'inp': {'t': 'str', 'v': text}})
+            elif pop == 'S' and r > 0.96:
+                # moderately nested input in several threads at once:
+                # anything that counts nesting depth process-wide shows
+                prog.append({'k': 'call',
+                             'api': rng.choice(['parse', 'format']),
+                             'inp': {'t': 'nest',
+                                     'c': rng.choice(['paren', 'bracket',
+                                                      'func']),
+                                     'd': rng.choice([30, 45, 60])},
+                             'opts': rng.choice([None,
+                                                 {'strip_comments': True}])})
+                if prog[-1]['api'] == 'parse':
+                    prog[-1]['opts'] = None
+                elif prog[-1]['opts'] is None:
+                    prog[-1]['opts'] = {'strip_whitespace': True}
             elif shared_opts is not None and r < 0.9:
                 text = rng.choice(corpus.RICH) if rng.random() < 0.7 \
                     else text_fn(rng)
